@@ -65,7 +65,8 @@ Record limits := mkLimits {
 (* BusConnectionData, the part that is not in Registry.conn: credentials, the
    n_match_rules counter, and whether the authentication conversation has ended
    (DBusTransport.authenticated; nothing in the bus reads it for the limits) *)
-Record cdata := mkCd { d_id : N; d_uid : N; d_nrules : N; d_auth : bool }.
+Record cdata := mkCd { d_id : N; d_uid : N; d_nrules : N; d_auth : bool;
+                       d_maxmsg : N   (* the connection's loader->max_message_size, set once when it is accepted *) }.
 
 (* BusPendingReply *)
 Record pend := mkPend { p_get : N; p_send : N; p_serial : N }.
@@ -79,10 +80,11 @@ Record state := mkState {
   s_pending : list pend;            (* connections->pending_replies, first link first *)
   s_ncomplete : N;                  (* connections->n_completed *)
   s_nincomplete : N;                (* connections->n_incomplete *)
-  s_byuser : list (N * N)           (* connections->completed_by_user: uid -> count *)
+  s_byuser : list (N * N);          (* connections->completed_by_user: uid -> count *)
+  s_watches : bool                  (* context->watches_enabled: the listening sockets are in the main loop *)
 }.
 
-Definition linit : state := mkState [] [] 0 [] [] [] 0 0 [].
+Definition linit : state := mkState [] [] 0 [] [] [] 0 0 [] true.
 
 Inductive lerr :=
 | LLimitsExceeded | LFailed | LAccessDenied | LInvalidArgs
@@ -101,6 +103,7 @@ Inductive omsg :=
 | OReply (from serial : N)        (* method return passed on *)
 | OSignal (from tag : N)          (* signal passed on *)
 | OClosed                         (* the bus closed this connection *)
+| OAbort                          (* _dbus_assert in the C code fails: the daemon aborts (checked builds) *)
 | OFault.                         (* ill-formed event / assertion path of the C code *)
 
 Definition lout := (N * omsg)%type.
@@ -236,24 +239,28 @@ Definition recipients (s : state) (tag : N) : list N :=
 (* _dbus_message_loader_set_max_message_size *)
 Definition loader_max (L : limits) : N := N.min (max_message_size L) DBUS_MAXIMUM_MESSAGE_LENGTH.
 
-Definition too_long (L : limits) (hdr : bytes) : bool :=
-  match Wire.Message.have_message (loader_max L) hdr with
+Definition too_long_at (maxlen : N) (hdr : bytes) : bool :=
+  match Wire.Message.have_message maxlen hdr with
   | Wire.Message.HaveInvalid _ => true
   | Wire.Message.HaveOk _ _ _ _ _ => false
   end.
+Definition too_long (L : limits) (hdr : bytes) : bool := too_long_at (loader_max L) hdr.
+
+(* bus_context_check_all_watches: the value context->watches_enabled gets *)
+Definition watches_for (L : limits) (nincomplete : N) : bool := negb (max_incomplete_connections L <=? nincomplete).
 
 (* ---- state updates ---------------------------------------------------------------- *)
 Definition with_reg (s : state) (b : bus) : state :=
   mkState (b_conns b) (b_services b) (b_next b) (s_cdata s) (s_rules s) (s_pending s)
-          (s_ncomplete s) (s_nincomplete s) (s_byuser s).
+          (s_ncomplete s) (s_nincomplete s) (s_byuser s) (s_watches s).
 
 Definition with_pending (s : state) (pl : list pend) : state :=
   mkState (s_conns s) (s_services s) (s_next s) (s_cdata s) (s_rules s) pl
-          (s_ncomplete s) (s_nincomplete s) (s_byuser s).
+          (s_ncomplete s) (s_nincomplete s) (s_byuser s) (s_watches s).
 
 Definition with_rules (s : state) (ds : list cdata) (rl : list (N * N)) : state :=
   mkState (s_conns s) (s_services s) (s_next s) ds rl (s_pending s)
-          (s_ncomplete s) (s_nincomplete s) (s_byuser s).
+          (s_ncomplete s) (s_nincomplete s) (s_byuser s) (s_watches s).
 
 Definition lfault (s : state) (c : N) : state * list lout := (s, [(c, OFault)]).
 
@@ -276,7 +283,9 @@ Definition disconnect (L : limits) (s : state) (c : N) (closed_by_bus : bool) : 
                  pl
                  (if c_active cn then s_ncomplete s - 1 else s_ncomplete s)
                  (if c_active cn then s_nincomplete s else s_nincomplete s - 1)
-                 (if c_active cn then set_uid (s_byuser s) (d_uid d) (get_uid (s_byuser s) (d_uid d) - 1) else s_byuser s),
+                 (if c_active cn then set_uid (s_byuser s) (d_uid d) (get_uid (s_byuser s) (d_uid d) - 1) else s_byuser s)
+                 (* only the incomplete branch re-checks the watches *)
+                 (if c_active cn then s_watches s else watches_for L (s_nincomplete s - 1)),
          (if closed_by_bus then [(c, OClosed)] else []) ++ map conv ro ++ po)
   | _, _ => lfault s c
   end.
@@ -290,20 +299,24 @@ Definition via_registry (L : limits) (s : state) (c : N) (e : RegTypes.event) : 
 Definition lstep (L : limits) (s : state) (e : levent) : state * list lout :=
   match e with
   | Connect uid =>
-      (* bus_context_check_all_watches: no accept() while n_incomplete >= max_incomplete_connections *)
-      if max_incomplete_connections L <=? s_nincomplete s then (s, [(s_next s, ONotAccepted)])
+      (* the listening sockets are polled only while context->watches_enabled; that flag is what
+         bus_context_check_all_watches computed the last time it ran *)
+      if negb (s_watches s) then (s, [(s_next s, ONotAccepted)])
+      (* new_connection_callback -> bus_connections_setup_connection: n_incomplete += 1,
+         _dbus_assert (n_incomplete <= max_incomplete_connections), bus_context_check_all_watches *)
+      else if max_incomplete_connections L <? s_nincomplete s + 1 then (s, [(s_next s, OAbort)])
       else
-        (* new_connection_callback -> bus_connections_setup_connection *)
         let (b', _) := Registry.step (reg L s) EvConnect in
         (mkState (b_conns b') (b_services b') (b_next b')
-                 (s_cdata s ++ [mkCd (s_next s) uid 0 false]) (s_rules s) (s_pending s)
-                 (s_ncomplete s) (s_nincomplete s + 1) (s_byuser s),
+                 (s_cdata s ++ [mkCd (s_next s) uid 0 false (loader_max L)]) (s_rules s) (s_pending s)
+                 (s_ncomplete s) (s_nincomplete s + 1) (s_byuser s)
+                 (watches_for L (s_nincomplete s + 1)),
          [(s_next s, OAccepted)])
   | Auth c =>
       match find_cd (s_cdata s) c with
       | Some d =>
           if d_auth d then lfault s c                                 (* after BEGIN the stream carries messages *)
-          else (with_rules s (upd_cd (s_cdata s) c (fun x => mkCd (d_id x) (d_uid x) (d_nrules x) true)) (s_rules s),
+          else (with_rules s (upd_cd (s_cdata s) c (fun x => mkCd (d_id x) (d_uid x) (d_nrules x) true (d_maxmsg x))) (s_rules s),
                 [(c, OAuthOk)])
       | None => lfault s c
       end
@@ -322,7 +335,8 @@ Definition lstep (L : limits) (s : state) (e : levent) : state * list lout :=
             else
               (mkState (b_conns b') (b_services b') (b_next b') (s_cdata s) (s_rules s) (s_pending s)
                        (s_ncomplete s + 1) (s_nincomplete s - 1)
-                       (set_uid (s_byuser s) (d_uid d) (get_uid (s_byuser s) (d_uid d) + 1)),
+                       (set_uid (s_byuser s) (d_uid d) (get_uid (s_byuser s) (d_uid d) + 1))
+                       (watches_for L (s_nincomplete s - 1)),
                map conv ro)
       | _, _ => lfault s c
       end
@@ -337,7 +351,7 @@ Definition lstep (L : limits) (s : state) (e : levent) : state * list lout :=
           else match rule with
                | None => (s, [(c, OErr LMatchRuleInvalid)])
                | Some r =>
-                   (with_rules s (upd_cd (s_cdata s) c (fun x => mkCd (d_id x) (d_uid x) (d_nrules x + 1) (d_auth x)))
+                   (with_rules s (upd_cd (s_cdata s) c (fun x => mkCd (d_id x) (d_uid x) (d_nrules x + 1) (d_auth x) (d_maxmsg x)))
                                  ((c, r) :: s_rules s),
                     [(c, OAck)])
                end
@@ -353,7 +367,7 @@ Definition lstep (L : limits) (s : state) (e : levent) : state * list lout :=
                    match remove_rule (s_rules s) c r with
                    | None => (s, [(c, OErr LMatchRuleNotFound)])
                    | Some rl =>
-                       (with_rules s (upd_cd (s_cdata s) c (fun x => mkCd (d_id x) (d_uid x) (d_nrules x - 1) (d_auth x))) rl,
+                       (with_rules s (upd_cd (s_cdata s) c (fun x => mkCd (d_id x) (d_uid x) (d_nrules x - 1) (d_auth x) (d_maxmsg x))) rl,
                         [(c, OAck)])
                    end
                end
@@ -404,11 +418,12 @@ Definition lstep (L : limits) (s : state) (e : levent) : state * list lout :=
           else (s, map (fun r => (r, OSignal c tag)) (recipients s tag))
       end
   | Message c hdr =>
-      match find_conn (s_conns s) c with
-      | None => lfault s c
-      | Some cn =>
-          (* the loader marks itself corrupted, the transport disconnects *)
-          if too_long L hdr then disconnect L s c true else (s, [])
+      match find_conn (s_conns s) c, find_cd (s_cdata s) c with
+      | Some cn, Some d =>
+          (* the loader marks itself corrupted, the transport disconnects; the maximum is the one the
+             connection was given when it was accepted *)
+          if too_long_at (d_maxmsg d) hdr then disconnect L s c true else (s, [])
+      | _, _ => lfault s c
       end
   end.
 
@@ -421,3 +436,27 @@ Fixpoint lrun (L : limits) (s : state) (h : list levent) : state * list (list lo
 (* ListQueuedOwners as the driver answers it (for the check's probes) *)
 Definition queued_owners (L : limits) (s : state) (a : qarg) : option (list who) :=
   list_queued_owners (reg L s) a.
+
+(* ---- configuration reloads ------------------------------------------------------------
+   bus_context_reload_config (SIGHUP or the driver's ReloadConfig) ->
+   process_config_every_time: context->limits is overwritten; then (since /repo 577eae6)
+   bus_context_check_all_watches re-evaluates whether the listening sockets are polled.
+   Nothing else that the limits touch is revisited (no
+   dbus_connection_set_max_message_size on existing connections, no connection closed). *)
+Definition with_watches (s : state) (w : bool) : state :=
+  mkState (s_conns s) (s_services s) (s_next s) (s_cdata s) (s_rules s) (s_pending s)
+          (s_ncomplete s) (s_nincomplete s) (s_byuser s) w.
+
+Inductive citem := Ev (e : levent) | Reload (L' : limits).
+
+Definition cstep (cs : limits * state) (i : citem) : (limits * state) * list lout :=
+  match i with
+  | Ev e => let (s', o) := lstep (fst cs) (snd cs) e in ((fst cs, s'), o)
+  | Reload L' => ((L', with_watches (snd cs) (watches_for L' (s_nincomplete (snd cs)))), [])
+  end.
+
+Fixpoint crun (cs : limits * state) (h : list citem) : (limits * state) * list (list lout) :=
+  match h with
+  | [] => (cs, [])
+  | i :: r => let (cs1, o) := cstep cs i in let (cs2, os) := crun cs1 r in (cs2, o :: os)
+  end.
